@@ -18,6 +18,7 @@ RULE = ('case = (c, A, b, K[, dont_sep]) with K a sequence over {0,+,S(2..4),e};
         'equal type or a separated nonlinear cone; distinct by input hash')
 TRUSTED = ['correspondence harness harness/props/c10.py (dense canonicalisation of scipy.sparse outputs)',
            'translator harness/translator/forms_tr.py (Gen/GenForms.v: expressions of ECOS.apply translated structurally, build_cone_type_selectors as a fold with a running index), proved equal to the model for all inputs',
+           'translator harness/translator/mforms_tr.py (Gen/GenMosekForms.v: separate_cone_constraints, dualize_problem, Mosek._primal_apply, Mosek._dual_apply; statements, loops, index arithmetic and cone bookkeeping translated structurally, array idioms through the fixed table Model/FormIdioms.v), proved equal to the models for all inputs (scalars with v + 0 = v; one row of A per row of K)',
            'translator harness/translator/mosek_tab.py (Gen/GenMosek.v: MOSEK status tables, primal/dual decision, dispatch) — the only tie for mosek.py parse functions',
            'MOSEK itself is absent: meaning of appendcone/putconboundlist/gety is trusted; only the data handed to it is modelled',
            'strong duality of dualize_problem is not proved (weak duality is)']
@@ -347,6 +348,18 @@ GEN_HEADER = (HEADER.replace('Base.Corr.', 'Gen.GenForms Base.Corr.') +
               '  | Ok d => Some (eG d, eh d, (el d, ee d, eq_ d), (eA d, eb d, ec d)) | Err _ => None end.')
 
 
+GEN2_HEADER = (HEADER.replace('Base.Corr.', 'Model.FormIdioms Gen.GenForms Gen.GenMosekForms Base.Corr.') +
+               '\nDefinition qplus (a b : Q) : Q := Qred (a + b).\n'
+               'Definition gen_separate_q (x : nat * matQ * list Q * list cone * option (list ctag)) :=\n'
+               "  let '(n, A, b, K, ds) := x in gen_separate 0%Q 1%Q qopp qplus n A b K ds.\n"
+               'Definition gen_mosek_primal_q (x : nat * list Q * matQ * list Q * list cone) :=\n'
+               "  let '(n, c, A, b, K) := x in let d := gen_mosek_primal_apply 0%Q 1%Q qopp qplus n c A b K in\n"
+               '  (mpA d, mpb d, mpK d, mpsep d, mpc d, mpn d).\n'
+               'Definition gen_mosek_dual_q (x : nat * list Q * matQ * list Q * list cone) :=\n'
+               "  let '(n, c, A, b, K) := x in let d := gen_mosek_dual_apply qopp n c A b K in\n"
+               '  (mdf d, mdG d, mdh d, (md_pos d, md_soc d, md_de d, md_fr d), decide_dual n K).')
+
+
 def suite(ctx, name, cases_py, model_expr, eqb_expr, in_ty, out_ty, oracle, header=None):
     HEADER = header or globals()['HEADER']
     ctx.evaluations += len(cases_py)
@@ -379,7 +392,7 @@ def jsonable(c, A, b, K, pts=None, **kw):
 def run(ctx):
     Ks, nexh = gen_Ks(ctx)
     ctx.notes.append('exhaustive over %d cone sequences (length<=%d), %d random' % (nexh, 3 if ctx.quick() else 4, len(Ks) - nexh))
-    ecos_cases, sep_cases, mp_cases, md_cases = [], [], [], []
+    ecos_cases, sep_cases, mp_cases, md_cases, gsep_cases = [], [], [], [], []
     for K in Ks:
         n = ctx.rng.randint(1, 3)
         SHARE_CONES[0] = ctx.rng.random() < 0.3
@@ -398,6 +411,8 @@ def run(ctx):
         ctx.count('dont_sep', ds)
         sin = cq((Nat(n), [fq(r) for r in A], fq(b), cqK(K), [Raw(TAG[t]) for t in (ds or [])]))
         sep_cases.append((jsonable(c, A, b, K, pts, dont_sep=ds, n=n), sin, cq(impl_separate(n, A, b, K, ds)), (n, A, b, K, ds, pts)))
+        gsin = cq((Nat(n), [fq(r) for r in A], fq(b), cqK(K), None if ds is None else vlib.Some([Raw(TAG[t]) for t in ds])))
+        gsep_cases.append((sep_cases[-1][0], gsin, sep_cases[-1][2], sep_cases[-1][3]))
         min_ = cq((Nat(n), fq(c), [fq(r) for r in A], fq(b), cqK(K)))
         mp_cases.append((jsonable(c, A, b, K, pts, n=n), min_, cq(impl_mosek_primal(n, c, A, b, K)), (n, c, A, b, K, pts)))
         md_cases.append((jsonable(c, A, b, K, n=n), min_, cq(impl_mosek_dual(n, c, A, b, K)), (n, c, A, b, K)))
@@ -424,6 +439,14 @@ def run(ctx):
           'matQ * list Q * list cone * list sepcone * list Q * nat', oracle_mosek_primal)
     suite(ctx, 'mosek_dual_apply', md_cases, 'mosek_dual_q', 'mosek_dual_out_eqb', 'nat * list Q * matQ * list Q * list cone',
           'list Q * matQ * list Q * (nat * list nat * nat * nat) * bool', oracle_mosek_dual)
+    # the same cases against separate_cone_constraints / Mosek._primal_apply / _dual_apply GENERATED from reformulators.py / mosek.py
+    # (Gen/GenMosekForms.v): validates the idiom table Model/FormIdioms.v of that translation on the inputs the implementation ran on
+    suite(ctx, 'separate_generated', gsep_cases, 'gen_separate_q', 'separate_out_eqb', 'nat * matQ * list Q * list cone * option (list ctag)',
+          'matQ * list Q * list cone * list sepcone', oracle_separate, header=GEN2_HEADER)
+    suite(ctx, 'mosek_primal_apply_generated', mp_cases, 'gen_mosek_primal_q', 'mosek_primal_out_eqb', 'nat * list Q * matQ * list Q * list cone',
+          'matQ * list Q * list cone * list sepcone * list Q * nat', oracle_mosek_primal, header=GEN2_HEADER)
+    suite(ctx, 'mosek_dual_apply_generated', md_cases, 'gen_mosek_dual_q', 'mosek_dual_out_eqb', 'nat * list Q * matQ * list Q * list cone',
+          'list Q * matQ * list Q * (nat * list nat * nat * nat) * bool', oracle_mosek_dual, header=GEN2_HEADER)
     # selectors: contiguous_selector_lengths
     from sageopt.coniclifts.utilities import contiguous_selector_lengths
     cs = []
